@@ -552,7 +552,16 @@ func (e *env) differential() {
 			continue
 		}
 		if canon(ov.Obs) != canon(oc.Obs) {
-			e.bad(o.name, "differs_from_copy", oc.Obs, ov.Obs)
+			what := "differs_from_copy"
+			if (o.name == "MarshalJSON" || o.name == "JSONRoundTrip") && in.Storage == "sparse" && !c.Own {
+				// known deviation (sparse Set, C03/M1): MarshalJSON re-packs a slice with
+				// tmp.Set(slice) and sparse Set only visits entries the receiver stores, so
+				// the encoded matrix is the zero matrix of the same dimensions
+				if oz := runOp(e, o, newMat("sparse", in.T, c.Vr, c.Vc)); oz.Panic == "" && canon(oz.Obs) == canon(ov.Obs) {
+					what = "sparse_repack_set_copies_nothing"
+				}
+			}
+			e.bad(o.name, what, oc.Obs, ov.Obs)
 			dirty = true
 			continue
 		}
